@@ -44,23 +44,12 @@ def run(pid, tier, seed):
     n_ev = cfg["trace_events"]
     shards = 1 if n_ev <= 4000 else 8
     verdicts, validated = [], 0
-    import concurrent.futures as cf
-
-    def run_shard(k):
+    cmds = []
+    for k in range(shards):
         tr = os.path.join(wd, f"lex_trace_{k}.ndjson")
-        c.run_vh(["lex-record", str(seed * 1000 + k), str(n_ev // shards), tr])
-        o = os.path.join(wd, f"trace_lex_{k}.out")
-        st = run_trace_tlc("Trace_Lex", tr, o, os.path.join(wd, f"mdt{k}"))
-        return tr, o, st
-
-    with cf.ThreadPoolExecutor(max_workers=shards) as ex:
-        results = list(ex.map(run_shard, range(shards)))
+        cmds.append((["lex-record", str(seed * 1000 + k), str(n_ev // shards), tr], tr))
     trace_violations = []
-    for tr, o, st in results:
-        events = [json.loads(x) for x in open(tr)]
-        vs, consumed = parse_verdicts(o)
-        if not consumed or st.get("error"):
-            raise c.ToolError(f"Trace_Lex did not consume {tr}: {st.get('error')}")
+    for events, vs, _ in c.validate_traces("Trace_Lex", cmds, wd, "trace_lex"):
         validated += len(events)
         for v in vs:
             ev = events[v["i"] - 1]
@@ -73,7 +62,6 @@ def run(pid, tier, seed):
                     "features": {"what": what},
                     "replay": {"line": ev["line"], "text": bytes(ev["line"]).decode("utf-8", "replace"), "event": ev},
                 })
-        os.remove(tr)
 
     violations = rep["violations"] + trace_violations
     cnt = rep["counters"]
@@ -94,28 +82,3 @@ def run(pid, tier, seed):
         "samples": rep["samples"][:5],
     }
     c.finish(pid, tier, seed, t0, coverage, violations, ASSUMPTIONS)
-
-
-def run_trace_tlc(module, trace, out, metadir, timeout=3000):
-    import subprocess
-    e = c.env()
-    e["TRACE"] = trace
-    e["TLC_JAVA_OPTS"] = "-Xss1g -Xmx3g -Dtlc2.tool.queue.IStateQueue=StateDeque"
-    with open(out, "w") as f:
-        try:
-            subprocess.run([c.TLC_SH, "1", metadir, os.path.join(c.SPEC, module + ".cfg"), os.path.join(c.SPEC, module + ".tla")],
-                           stdout=f, stderr=subprocess.STDOUT, env=e, timeout=timeout)
-        except subprocess.TimeoutExpired:
-            raise c.ToolError(f"{module} timed out on {trace}")
-    return c.tlc_stats(out)
-
-
-def parse_verdicts(out):
-    vs, consumed = [], False
-    for line in open(out, errors="replace"):
-        if line.startswith('<<"VERDICT", "'):
-            body = line.strip()[len('<<"VERDICT", "'):-3]
-            vs.append(json.loads(body.replace('\\"', '"').replace('\\\\', '\\')))
-        elif line.startswith("Model checking completed. No error has been found."):
-            consumed = True
-    return vs, consumed
